@@ -643,6 +643,8 @@ def gen_api_ops(rng, npool, nfar, nnear, maxops):
         ops.append(['OBS_REPORT', []])      # before the first compute
     if rng.random() < 0.2:
         ops.append(['OBS_CMDLINE'])
+    if rng.random() < 0.1:
+        ops.append(['OBS_BASIC', rng.choice(['9', '9', '12', '13'])])
     target = rng.randrange(6, maxops + 1)
     while len(ops) < target:
         r = rng.random()
@@ -674,8 +676,12 @@ def gen_api_ops(rng, npool, nfar, nnear, maxops):
                 if st.near is not None and rng.random() < 0.8:
                     opts.append('near-field')
                 op = ['OBS_REPORT', opts]
-            else:
+            elif r < 0.95:
                 op = ['OBS_CMDLINE']
+            elif r < 0.985:
+                op = ['OBS_BASIC', rng.choice(['9', '9', '12', '13'])]
+            else:
+                op = ['OBS_MISC']
         st.apply(op)
         ops.append(op)
     # make sure the history ends observable
@@ -960,7 +966,8 @@ def floor_plans(base_seed, tier='quick'):
             near = gen_near(rng, m)
             ops = [['OBS_REPORT', []], ['COMPUTE'], ['FAR', 0], ['NEAR', 0], ['OBS_NUM'],
                    ['SET_F', 1], ['COMPUTE'], ['NEAR', 0], ['FAR', 1], ['FAR', 0], ['OBS_NUM'],
-                   ['OBS_REPORT', ['far-field', 'near-field']], ['COMPUTE'], ['OBS_NUM'],
+                   ['OBS_REPORT', ['far-field', 'near-field']], ['OBS_BASIC', '9'], ['OBS_MISC'],
+                   ['COMPUTE'], ['OBS_NUM'],
                    ['SET_F', 0], ['COMPUTE'], ['FAR', 0], ['OBS_NUM'],
                    ['OBS_REPORT', ['far-field', 'far-field-absolute']], ['OBS_CMDLINE']]
             api = dict(kind='api', builder='cli', argv=m.argv(), pool=pool[:2], fars=[far, far2],
